@@ -211,6 +211,7 @@ func reflectTarget(b *tbuf, t *Target, seed, idx uint64, rc *reflCfg) {
 		exhaustive(b, t, gt, modelOK)
 	}
 	bytesPass(b, t, gt, modelOK)
+	unknownSetPass(b, t)
 	nilPass(b, t, gt)
 	libPass(b, t, r, en, reached, rc.libCases)
 }
@@ -932,5 +933,63 @@ func bytesPass(b *tbuf, t *Target, gt *getterTable, modelOK bool) {
 			b.Violate("HARNESS", "history-panic", pm, hr.replay(init))
 		}
 		b.Count("bytes_container_histories")
+	}
+}
+
+// unknownSetPass: GetUnknown / SetUnknown histories in which a value returned earlier is kept across later calls.
+// SetUnknown REPLACES the set: a RawFields value obtained before must read the same afterwards (the reference
+// swaps the slice header), whether the new payload is shorter, longer or as long as the old one; swapping the
+// unknown sets of two messages and save / replace / restore on one message must behave like on the reference.
+func unknownSetPass(b *tbuf, t *Target) {
+	u1 := protoreflect.RawFields{0xc0, 0x3e, 0x01, 0xc8, 0x3e, 0x02, 0xd0, 0x3e, 0x03} // fields 1000, 1001, 1002
+	pays := []protoreflect.RawFields{
+		{0x80, 0x7d, 0x2a},                                                       // shorter
+		{0x80, 0x7d, 0x2a, 0x88, 0x7d, 0x2b},                                     // shorter, two records
+		{0x80, 0x7d, 0x01, 0x88, 0x7d, 0x02, 0x90, 0x7d, 0x03},                   // same length
+		{0x80, 0x7d, 0x01, 0x88, 0x7d, 0x02, 0x90, 0x7d, 0x03, 0x98, 0x7d, 0x04}, // longer
+		{},
+		nil,
+	}
+	mk := func(gen bool) protoreflect.Message {
+		if gen {
+			return t.B.ToMessage(0, vval.Empty(t.S, 0)).ProtoReflect()
+		}
+		return dynamicpb.NewMessage(t.Desc)
+	}
+	replay := "# unknown-set pass type " + t.Full
+	for pi, v := range pays {
+		run := func(gen bool) (trace string) {
+			a, c := mk(gen), mk(gen)
+			a.SetUnknown(append(protoreflect.RawFields(nil), u1...))
+			c.SetUnknown(append(protoreflect.RawFields(nil), v...))
+			ua := a.GetUnknown()
+			a.SetUnknown(append(protoreflect.RawFields(nil), v...)) // replace by an independent payload
+			trace += fmt.Sprintf("kept=%x now=%x;", []byte(ua), []byte(a.GetUnknown()))
+			a.SetUnknown(ua) // restore
+			trace += fmt.Sprintf("restored=%x;", []byte(a.GetUnknown()))
+			// swap between two messages
+			x, y := a.GetUnknown(), c.GetUnknown()
+			a.SetUnknown(y)
+			c.SetUnknown(x)
+			trace += fmt.Sprintf("swap a=%x c=%x;", []byte(a.GetUnknown()), []byte(c.GetUnknown()))
+			ba, _ := proto.MarshalOptions{Deterministic: true}.Marshal(a.Interface())
+			bc, _ := proto.MarshalOptions{Deterministic: true}.Marshal(c.Interface())
+			trace += fmt.Sprintf("bytes a=%x c=%x", ba, bc)
+			return
+		}
+		var got, want string
+		pg, pmg := guard(func() { got = run(true) })
+		pw, _ := guard(func() { want = run(false) })
+		b.Count("unknown_set_histories")
+		b.Case(fmt.Sprintf("unknownset:%s:%d", t.Full, pi), true)
+		if pw {
+			continue
+		}
+		if pg {
+			b.Violate("C08", "unknown-set-history", "GetUnknown/SetUnknown history panicked: "+firstLine(pmg), replay)
+		} else if got != want {
+			b.Violate("C08", "unknown-set-history", fmt.Sprintf("GetUnknown/SetUnknown history with a kept value (payload %x): generated %s, reference %s", []byte(v), got, want), replay)
+			b.Violate("C14", "unknown-set-history", fmt.Sprintf("GetUnknown/SetUnknown do not read and replace exactly the set: generated %s, reference %s", got, want), replay)
+		}
 	}
 }
